@@ -141,10 +141,10 @@ Definition starts_brace (s : string) : bool :=
 Fixpoint has_newline (s : string) : bool :=
   match s with String c r => Ascii.eqb c nl || has_newline r | EmptyString => false end.
 
-(** [Unmarshal]: bs[0] is read without a length check. *)
+(** [Unmarshal]: an empty text is an unknown syntax (length check before bs[0]). *)
 Definition unmarshal (text : string) (js ym : option obj) : outcome obj :=
   match text with
-  | EmptyString => Panic "index out of range [0] with length 0"
+  | EmptyString => Err "unknown syntax"
   | String _ _ =>
       if starts_brace text then match js with Some o => Ok o | None => Err "json" end
       else if has_newline text then match ym with Some o => Ok o | None => Err "yaml" end
@@ -220,7 +220,7 @@ Definition get_http_request (ptypes : list (string * string)) (rq : request) : o
         if is_post rq then
           let b := rq_body rq in
           match bt_text b with
-          | EmptyString => Panic "index out of range [0] with length 0"    (* js[0] *)
+          | EmptyString => Err "empty body"    (* length check before js[0] *)
           | String _ _ =>
               if starts_brace (bt_text b) then
                 match bt_json b with Some o => Ok (merge m1 o) | None => Err "json" end
@@ -232,11 +232,11 @@ Definition get_http_request (ptypes : list (string * string)) (rq : request) : o
         else Ok m1
   end.
 
-(** ServeHTTP (httpd.go:422): m["uri"].(string), unchecked. *)
+(** ServeHTTP: m["uri"].(string), checked (400 when it is not a string). *)
 Definition uri_of (m : params) : outcome string :=
   match alookup "uri" m with
   | Some (JStr s) => Ok s
-  | _ => Panic "interface conversion: not a string"
+  | _ => Err "need a string uri"
   end.
 
 (** The request as the dispatcher sees it: normalised uri and parameter map. *)
@@ -459,7 +459,7 @@ Fixpoint batch_elems (xs : list json) : outcome (list belem) :=
                 match dispatch (dwim_uri u) o with
                 | Ok p => Ok (BPlan p) | Err e => Ok (BErr e) | Panic w => Panic w | OutOfFuel => OutOfFuel
                 end
-            | Some _ => Panic "interface conversion: not a string"     (* u.(string) *)
+            | Some _ => Ok (BErr "need a string uri")     (* u.(string), checked *)
             end
         | _ => Ok BBadType
         end in
@@ -490,7 +490,7 @@ Definition process_request (m : params) : outcome action :=
         match dispatch uri m with
         | Ok p => Ok (ASingle p) | Err e => Err e | Panic w => Panic w | OutOfFuel => OutOfFuel
         end
-  | Some _ => Panic "interface conversion: not a string"
+  | Some _ => Err "need a string uri"
   end.
 
 (** ServeHTTP up to the System calls: Err = answered 400 before any call. *)
